@@ -263,6 +263,9 @@ pub fn cases(thorough: bool) -> Vec<Case> {
             for (d, b) in r8::edits(&sub) {
                 push(&mut out, 7, b, format!("R8 edit: {d}"));
             }
+            for (d, b) in crate::mutants::bmp_pairs(&sub) {
+                push(&mut out, 7, b, format!("R8 coordinated edit: {d}"));
+            }
         }
     }
     out
